@@ -73,7 +73,7 @@ func fragSizes(g *Gen, n int, o *Out) {
 	}
 	d0 := map[string]interface{}{"p": 0, "s": "x"}
 	for _, k := range ladder {
-		if k == 0 {
+		if k == 0 || k > 4100 { // the parser is superlinear in the number of operands
 			continue
 		}
 		// ---- C03: chains of k operands
